@@ -112,7 +112,17 @@ func stress(args []string) error {
 				}
 			}
 			n.r.mu.Unlock()
+			// is a later stable event seen?
+			n.peer.push(p2p.BlocksMsg, enc(types.Blocks{node.Copy(wd.blocks[2], nil)}))
+			n.peer.push(p2p.ConfirmMsg, enc(wd.confirm(2, 1)))
+			n.fence()
+			time.Sleep(2 * time.Second)
+			n.r.mu.Lock()
+			fmt.Printf("   after block 2 + confirm: stable=%d received=%d changed=%d\n", n.bc.StableBlock().Height(),
+				count(n.r.evs, 0, func(e ev) bool { return e.kind == "stable.received" }), count(n.r.evs, 0, func(e ev) bool { return e.kind == "stable.changed" }))
+			n.r.mu.Unlock()
 			// do not wait for it at stop
+			n.r.add(ev{kind: "stable.received"})
 			n.r.add(ev{kind: "stable.received"})
 		}
 		n.stop()
